@@ -18,7 +18,7 @@ Decided statically (never measures time, never runs a regex):
 import ast
 import re
 
-from .. import AnalysisError, rx
+from .. import AnalysisError, rx, flow
 from ..fold import RegexVal, is_unknown
 from ..srcmodel import walk_local, call_name, norm, dotted, parent
 from . import common
@@ -104,6 +104,7 @@ def check(ctx):
 
     ctx.attempt(_grow)
     ctx.attempt(_whitespace_normal_form)
+    ctx.attempt(_whitespace_before_everything)
     ctx.attempt(_fixpoint)
     ctx.attempt(_progress)
     ctx.attempt(_bounded_expansion)
@@ -360,6 +361,28 @@ def fixpoint_loops(ctx, only_module, floor):
             ctx.ok('FIXPOINT', construct,
                    f"snapshot `{norm(snap_stmt)}`; subject re-derived each pass")
 
+
+
+def _whitespace_before_everything(ctx):
+    """Every text that leaves plss_preprocess has been through
+    reduce_whitespace: the list / aliquot patterns downstream are only
+    bounded on whitespace-normal text (a run of 200 blanks after an aliquot is
+    super-cubic for aliquot_intervener_remover_regex).  A `return` that hands
+    the text back without it re-opens that door."""
+    fi = ctx.repo.func('plss_preprocess:plss_preprocess')
+    rets = [r for r in walk_local(fi.node) if isinstance(r, ast.Return) and r.value is not None]
+    n = 0
+    for r in rets:
+        first = r.value.elts[0] if isinstance(r.value, ast.Tuple) and r.value.elts else r.value
+        prov = flow.provenance(fi.node, first)
+        calls = {c.split('.')[-1] for c in flow.prov_calls(prov)}
+        n += 1
+        ctx.check('reduce_whitespace' in calls, 'FIXPOINT', 'plss_preprocess returns whitespace-normal text on every path',
+                  detail_bad=f"`{norm(r)[:60]}` (line {r.lineno}) returns text that never went through reduce_whitespace(): a "
+                             f"description that takes this path keeps its runs of blanks / tabs, on which the downstream patterns "
+                             f"backtrack polynomially or worse", key="FIXPOINT|plss_preprocess|unreduced-return",
+                  where=common.loc(fi, r))
+    ctx.floor('returns of plss_preprocess', n, 1)
 
 
 def _whitespace_normal_form(ctx):
